@@ -302,7 +302,7 @@ def run_c10(ctx):
         hist[k.split(":")[0]] = hist.get(k.split(":")[0], 0) + n
     ctx.extra["vector_histogram"] = hist
     ctx.extra["type_constructors_covered"] = sorted(set(k.split(":")[1] for k in s1["by_action"]))
-    if hist.get("roundtrip", 0) < 3000 or hist.get("bad_json", 0) < 15 or len(ctx.extra["type_constructors_covered"]) < 30:
+    if hist.get("roundtrip", 0) < 3000 or hist.get("bad_json", 0) < 15 or hist.get("module", 0) < 40 or len(ctx.extra["type_constructors_covered"]) < 30:
         raise ToolError("vacuous run: %s" % hist)
     # bytes that encode no value (incl. hostile lengths): one process each under an address-space limit
     exe = os.path.join(vlib.VERIF, "harness", "base", "target", "release", "vh-base")
@@ -316,7 +316,7 @@ def run_c10(ctx):
         ctx.traces += 1
         ctx.evaluations += 1
         try:
-            p = subprocess.run([exe, "schema-replay", "--one", f], capture_output=True, text=True, timeout=120, preexec_fn=lim)
+            p = subprocess.run([exe, "schema-replay", "--one", f], capture_output=True, text=True, timeout=30, preexec_fn=lim)
         except subprocess.TimeoutExpired:
             ctx.violation("bytes -> JSON under schema %s did not terminate" % json.dumps(v["t"])[:100], {"kind": "schema_one", "vector": v})
             continue
@@ -343,12 +343,12 @@ def run_c10(ctx):
     ctx.assumptions += [
         "leaf types with text forms (timestamps, durations, amounts) are taken from a fixed table of (JSON, bytes) pairs; their text forms are C16's concern; account addresses (base58) are not covered",
         "nesting deeper than 32 and more than 2^16 zero-width elements are outside the property",
-        "module schema versions V0-V3 / base64 framing are not yet specified",
+        "module schemas: one contract with up to two receive functions per module, every function shape of V0-V3; enums with exactly 65536 variants are not enumerated",
     ]
     ctx.rule = ("the closure of 40 leaf triples (type, JSON, bytes) under the constructors pair, list (4 size lengths), set, map, array, struct (named/unnamed/none), enum, tagged enum to nesting depth 3 "
                 "(about 10^4 triples): JSON -> bytes and bytes -> JSON must both hold byte-exactly, and the binary form of every schema type must equal EncType and read back; JSON values a type does not "
                 "accept must be refused; bytes that encode no value (undefined tags, invalid UTF-8 and names, over-long LEB128, lengths far beyond the content) must be refused without exhausting memory "
-                "(one process each). distinct = distinct triples")
+                "(one process each). Enums with 255/256/257 variants (tag width), strings of 4096..5000 bytes inside every constructor, and module schemas V0-V3 (every function shape; prefixed with every version hint, unprefixed with the matching hint, base64, truncations) are vectors as well. distinct = distinct triples")
 
 
 def run(ctx):
